@@ -140,6 +140,10 @@ func c13Params(explode *bool) ([]c13param, []any, []any) {
 		{"X-DA", "header", gen.S{"type": "array", "items": gen.S{"type": "string"}, "default": gen.Arr("a", "b")}, "c,d", gen.Arr("a", "b")},
 		{"ck", "cookie", gen.S{"type": "string", "default": "cd"}, "mine", "cd"},
 	}
+	if explode == nil {
+		// a large integer default: what is forwarded must read back as that integer (not as text in exponent notation)
+		ps[0] = c13param{"qi", "query", gen.S{"type": "integer", "default": 7000000.0}, "3", 7000000.0}
+	}
 	if explode != nil && *explode {
 		// a fractional default: what is forwarded must read back as 0.75, not as a rounded number
 		ps[0] = c13param{"qi", "query", gen.S{"type": "number", "default": 0.75, "maximum": 0.9}, "0.5", 0.75}
@@ -154,6 +158,9 @@ func c13Params(explode *bool) ([]c13param, []any, []any) {
 		m := gen.S{"name": p.name, "in": p.in, "schema": p.schema}
 		if p.name == "qa" && explode != nil {
 			m["explode"] = *explode
+			if !*explode {
+				m["style"] = "pipeDelimited" // the forwarded default has to be written with this style's delimiter
+			}
 		}
 		if p.name == "X-D" && explode == nil {
 			// declared on the path item; the operation declares a parameter of the same name in another location,
@@ -317,6 +324,7 @@ func c13Group(c *core.Ctx, explode *bool, si int, schema gen.S, secured bool, ma
 		return
 	}
 	params, _, _ := c13Params(explode)
+	pipeDelimitedQA = explode != nil && !*explode
 	op := d.Paths.Find("/d").Post
 	pathItemParams = d.Paths.Find("/d").Parameters
 	exName := "unset"
@@ -344,6 +352,9 @@ func c13Group(c *core.Ctx, explode *bool, si int, schema gen.S, secured bool, ma
 	}
 }
 
+// pipeDelimitedQA: the document under test declares qa as a non-exploded pipeDelimited array
+var pipeDelimitedQA bool
+
 func c13Build(params []c13param, mask int, b c13body, withGet bool) (*http.Request, map[string]bool) {
 	present := map[string]bool{}
 	var pairs []string
@@ -356,7 +367,11 @@ func c13Build(params []c13param, mask int, b c13body, withGet bool) (*http.Reque
 		present[p.name] = true
 		switch p.name {
 		case "qa":
-			pairs = append(pairs, "qa=8", "qa=9")
+			if pipeDelimitedQA {
+				pairs = append(pairs, "qa=8%7C9")
+			} else {
+				pairs = append(pairs, "qa=8", "qa=9")
+			}
 		default:
 			switch p.in {
 			case "query":
